@@ -9,7 +9,7 @@ reg("C21",
     bound="quick: {LL_CONNECTION_UPDATE_IND, LL_CHANNEL_MAP_REQ, LL_PHY_UPDATE_IND after LL_PHY_REQ/RSP} x latency {0,1,3} x k {0,1,5} x "
           "delta {-32768,-3,-2,-1,0,1,2,3,6,7,32767} x traffic {none, LL_PING_REQ, ATT Read Request} x all 2^8 received/missed patterns, plus receive "
           "ring positions 1..24 (LL_PING_REQ exchanges before) x delta {2,3,7} x {3 ATT Write Commands of 27 bytes, ATT Read}; peripheral latency "
-          "configurations default and strict; plus 'connection ends while the procedure is pending': 3 procedures x end {LL_TERMINATE_IND then silence, supervision "
+          "configurations default and strict; plus LL_CONNECTION_UPDATE_IND to a larger interval (80) with winOffset {old interval + 1, new interval} and to a smaller one (8) with winOffset {0, new interval} x latency {0,1} x delta {2,3,6} x {none, ping} x 2^8 patterns; plus 'connection ends while the procedure is pending': 3 procedures x end {LL_TERMINATE_IND then silence, supervision "
           "timeout by misses: delta {30,33}; local disconnect(): delta {6,7}} -> advertising -> second CONNECT_IND (interval 36, hop 7, channels 0..19) x all 2^7 "
           "patterns of 8 events with the first one received, then received events until the old instant is 3 events behind, LL_PING_REQ.  thorough: latency {0,1,2,3,7} x k {0,1,2,5} x 16 deltas (adds -32767,4,5,9,32766) x 6 traffic kinds "
           "(adds 3 write commands, ping / ATT in the same event as the procedure PDU) x all 2^10 patterns, ring positions 1..64 x all 2^8 patterns, "
